@@ -291,6 +291,7 @@ func runC15(c *run.Ctx) {
 		}
 	}
 	c15Excluded(c)
+	c15SchemaEntries(c)
 	c15Ggqlgen(c)
 }
 
